@@ -13,6 +13,9 @@ pub struct Case {
     pub program: Program,
     /// every cut position inside every write (else a dense sample)
     pub all_cuts: bool,
+    /// the device is not fresh: it still holds the complete file of this older program (cursor at 0)
+    #[serde(default)]
+    pub old: Option<Program>,
 }
 
 pub fn small_program(s: &mut Src) -> Program {
@@ -77,8 +80,9 @@ impl Check for C15 {
          operation (all of bytes 0..64, the last 8 bytes, every 4th byte elsewhere; thorough: every byte). For each image accepted by \
          E57Reader::new: it must stem from after the entry into the top-level finalize, list the same point clouds and images as the completed file, \
          and every read operation (XML, descriptors, raw and simple iteration of every cloud, every blob) must fail or return exactly the completed \
-         file's result. `evaluations` counts programs, `executions_of_code_under_test` counts crash images. Non-trivial: program whose image set \
-         contains a cut inside the final header-patch write, or an accepted incomplete image."
+         file's result. 1 in 6 programs runs on a reused device that still holds an older complete file (cursor at 0): the writer either refuses \
+         the device without touching it or every image (old content overlaid with the new writes) obeys the same rule. `evaluations` counts programs, `executions_of_code_under_test` counts crash images. Non-trivial: program whose image set \
+         contains a cut inside the final header-patch write, or an accepted incomplete image, or a reused device."
             .into()
     }
     fn assumptions() -> Vec<String> {
@@ -100,18 +104,42 @@ impl Check for C15 {
                 }
             }
         }
-        Case { program, all_cuts: t == Tier::Thorough }
+        let old = if s.chance(1, 6) { Some(small_program(s)) } else { None };
+        Case { program, all_cuts: t == Tier::Thorough, old }
     }
     fn run(case: &Case) -> Verdict {
         let mut v = Verdict::new();
         let p = &case.program;
-        let dev = MemDev::new();
+        // a reused device: the complete file of an older program is still on it
+        let mut old_bytes: Vec<u8> = Vec::new();
+        if let Some(op) = &case.old {
+            let d = MemDev::new();
+            let hd = d.handle();
+            let mut t = Trace::default();
+            if guard(|| prog::exec(op, d, &mut t)).is_ok() && t.error.is_none() && t.finalized {
+                old_bytes = hd.bytes();
+            }
+        }
+        let dev = MemDev::with_data(old_bytes.clone());
         dev.st.borrow_mut().record = true;
         let h = dev.handle();
         let mut tr = Trace::default();
         if let Err(panic) = guard(|| prog::exec(p, dev, &mut tr)) {
             v.fail(format!("writer panicked in {}: {panic}", tr.current));
             return v;
+        }
+        if !old_bytes.is_empty() {
+            if let Some((call, _)) = &tr.error {
+                if call == "E57Writer::new" {
+                    // the writer refuses a device that is not empty: nothing of the new file exists, nothing can be mistaken
+                    if h.bytes() != old_bytes {
+                        v.fail("E57Writer::new refused a non-empty device but changed its content");
+                    }
+                    v.nt("nonempty_device_refused");
+                    return v;
+                }
+            }
+            v.nt("nonempty_device_accepted");
         }
         if tr.error.is_some() {
             v.label("writer_error_out_of_scope");
@@ -147,7 +175,7 @@ impl Check for C15 {
         } else {
             None
         };
-        let mut image: Vec<u8> = Vec::new();
+        let mut image: Vec<u8> = old_bytes.clone();
         let apply = |img: &mut Vec<u8>, off: u64, data: &[u8]| {
             let end = off as usize + data.len();
             if img.len() < end {
@@ -206,7 +234,7 @@ impl Check for C15 {
             apply(&mut image, *off, data);
         }
         v.execs = images.max(1);
-        if tr.finalized && image != completed {
+        if tr.finalized && image != completed && old_bytes.is_empty() {
             v.infra("replaying the recorded writes does not reproduce the device content");
         }
         v
